@@ -149,6 +149,24 @@ def audit_axioms(pid, modules, theorems, log):
 # ---------------------------------------------------------------------------
 # correspondence runs
 
+LAST_STDERR = [""]
+
+
+def fatal_race_of(stderr):
+    """The Go runtime's own detection of unsynchronised map access ("fatal error: concurrent map …")
+    kills the process; it is a data race observed without the race detector.  Returns a failing
+    input in the shape of the -race probe's, or None."""
+    m = re.search(r"fatal error: (concurrent map[^\n]*)", stderr or "")
+    if not m and "WARNING: DATA RACE" in (stderr or ""):
+        # a -race build that went on after a reported race and then crashed inside the racing code
+        m = re.search(r"(panic: runtime error: [^\n]*)", stderr)
+    if not m:
+        return None
+    frames = sorted(set(re.findall(r"^(github.com/Comcast/sheens/\S+?)\(", stderr, flags=re.M)))
+    short = "\n".join(l for l in stderr.split("\n") if "fatal error" in l or "Comcast/sheens" in l)[:3000]
+    return {"race": "WARNING: DATA RACE (runtime fatal: %s)\n%s" % (m.group(1), short), "frames": frames, "op": "runtime fatal error"}
+
+
 def run_harness(op, args, workdir, tag, log, timeout=3000, binary=None, env=None):
     """Run the Go harness; a fatal crash (e.g. stack overflow) is attributed to the running case,
     which is then re-run marked as crashed."""
@@ -168,6 +186,7 @@ def run_harness(op, args, workdir, tag, log, timeout=3000, binary=None, env=None
                 return lines, crashed, False
         if p.returncode == 0:
             return lines, crashed, True
+        LAST_STDERR[0] = p.stderr
         try:
             idx = int(open(prog).read().strip())
         except Exception:
@@ -409,6 +428,17 @@ def run_check(spec, res, workdir):
                 if build_go_race(log):
                     binary = HARNESS_RACE
             lines, crashed, okh = run_harness(op, rargs, workdir, "%s-%d" % (op, i), log, binary=binary,
+                                              env=(dict(GOENV, GORACE="halt_on_error=1 exitcode=66") if binary else None))
+        retries = 0
+        while not okh and not opts.get("overlay") and retries < 3:
+            fr = fatal_race_of(LAST_STDERR[0])
+            if fr is None:
+                break
+            # the run died of the data race itself: that is a failing input; run again for the rest
+            res.failing.append(("probe:dataRace", dict(fr, args=rargs), {"corr": True}))
+            LAST_STDERR[0] = ""
+            retries += 1
+            lines, crashed, okh = run_harness(op, rargs, workdir, "%s-%d-r%d" % (op, i, retries), log, binary=binary,
                                               env=(dict(GOENV, GORACE="halt_on_error=1 exitcode=66") if binary else None))
         if not okh:
             res.oblige("harness:run:%s#%d" % (op, i), False, "harness did not complete")
